@@ -176,9 +176,18 @@ def depth_coordinate_spec(spec, name):
     raise KeyError(name)
 
 
+def effective_positive(dc):
+    """The sign convention of a depth coordinate: its positive attribute, or - without one - the
+    documented guess (positive down when more than half the values are above zero)."""
+    if dc.get("positive") is not None:
+        return dc["positive"]
+    values = dc["values"]
+    return "down" if sum(1 for v in values if v > 0) > len(values) / 2 else "up"
+
+
 def levels_shallow_to_deep(dc):
     """Level indexes of a depth coordinate ordered by physical depth below the surface."""
-    sign = 1 if dc.get("positive") == "down" else -1
+    sign = 1 if effective_positive(dc) == "down" else -1
     return sorted(range(len(dc["values"])), key=lambda q: sign * dc["values"][q])
 
 
@@ -266,6 +275,16 @@ def _exact_cast(values, dtype):
     return full
 
 
+def _signed_zero(bounds, g):
+    """With g["negative_zero"]: a bound that is exactly zero is stored as -0.0 in the second
+    column of a bounds table (so two neighbouring cells store their shared edge as 0.0 and
+    -0.0, which are equal numbers with different bytes)."""
+    if g.get("negative_zero"):
+        column = bounds[..., 1]
+        column[column == 0] = -0.0
+    return bounds
+
+
 def build_cf1d(spec):
     g = spec["geom"]
     n = g["names"]
@@ -275,10 +294,10 @@ def build_cf1d(spec):
     bounds_target = coords if g.get("bounds_as") == "coord" else data_vars
     if g.get("lat_bounds") is not None:
         lat_attrs["bounds"] = n["lat"] + "_bnds"
-        bounds_target[n["lat"] + "_bnds"] = ([n["y"], "nv"], _f(g["lat_bounds"]), {})
+        bounds_target[n["lat"] + "_bnds"] = ([n["y"], "nv"], _signed_zero(_f(g["lat_bounds"]), g), {})
     if g.get("lon_bounds") is not None:
         lon_attrs["bounds"] = n["lon"] + "_bnds"
-        bounds_target[n["lon"] + "_bnds"] = ([n["x"], "nv"], _f(g["lon_bounds"]), {})
+        bounds_target[n["lon"] + "_bnds"] = ([n["x"], "nv"], _signed_zero(_f(g["lon_bounds"]), g), {})
     lat_dtype, lon_dtype = g.get("coord_dtypes") or ("f8", "f8")
     target = coords if (g["coords_as"] == "coord" or n["lat"] == n["y"]) else data_vars
     target[n["lat"]] = ([n["y"]], _exact_cast(g["lat"], lat_dtype), lat_attrs)
@@ -337,6 +356,11 @@ def build_cf2d(spec):
                 for c, (a, b) in enumerate(corners):
                     bx[j, i, c] = nodes[a][b][0]
                     by[j, i, c] = nodes[a][b][1]
+                if g.get("negative_zero") and (j + i) % 2 == 0:
+                    # every other cell stores its zeros as -0.0: shared corners then differ in
+                    # their bytes between neighbours, not in their value
+                    bx[j, i][bx[j, i] == 0] = -0.0
+                    by[j, i][by[j, i] == 0] = -0.0
         lat_attrs["bounds"] = n["lat"] + "_bnds"
         lon_attrs["bounds"] = n["lon"] + "_bnds"
         bounds_target = coords if g.get("bounds_as") == "coord" else data_vars
